@@ -5,6 +5,7 @@ CONSTANTS
   Q = 1
   MaxInstr = 12
   MaxFail = 2
+  GatedFinish = FALSE
   Eager = TRUE
   RecoverUsesStatePin = TRUE
   StatusAllListsDirect = TRUE
